@@ -10,7 +10,14 @@ def chk(L, T, p, acc, disp):
 
 
 def queries(tier):
-    return parse_family(tier, [chk]) + build_family(tier, [chk], kinds=('String', 'Purl', 'SmallString', 'CowB', 'CowO'))
+    qs = parse_family(tier, [chk]) + build_family(tier, [chk], kinds=('String', 'Purl', 'SmallString', 'CowB', 'CowO'))
+    # names at typical size limits (100, 128, 256 characters) for the types that rewrite the name: a two-byte hole in front of a long run
+    for ty in ('nuget', 'pypi'):
+        for n in (99, 127, 255):
+            parts = ['pkg:%s/' % ty, ('hole', 'h', 2), 'a' * n]
+            qs.append(Query('Purl %s' % show_template(parts).replace('a' * n, 'a*%d' % n), h_value, {'T': 'Purl', 'parts': parts, 'checks': [chk]},
+                            bound='input = pkg:%s/⟦2⟧ followed by %d times "a"' % (ty, n)))
+    return qs
 
 
 def native_request(v):
